@@ -12,7 +12,7 @@ from harness import common_render as CR
 
 ID = "C11"
 TECHNIQUE = "solver-enumerated arrangements of footnote references/definitions through the instrumented MyST front end and transforms (symx), compared with a numbering/linking/collection oracle"
-LEVEL_TEXT = ("For every arrangement of up to K footnote references and definitions (labels a, b, 1, 2, 10; duplicates, missing and unreferenced definitions; definitions before/after their "
+LEVEL_TEXT = ("For every arrangement of up to K footnote references and definitions (labels a, b, 1, 2, 10 and the non-ASCII digit labels U+00B2, U+0663; duplicates, missing and unreferenced definitions; definitions before/after their "
               "references and inside block quotes) under both footnote_sort and footnote_transition settings, the doctree after the full transform pipeline is compared with the oracle: "
               "reference -> definition link and equal number, back-references, distinct labels, numeric labels kept, auto labels numbered by first reference (sorting on), definitions "
               "moved to the end in ascending order behind exactly one transition when configured (sorting on) or left in place (sorting off), one warning per duplicate / unreferenced "
@@ -50,6 +50,14 @@ def gen(c, k, labels, nkinds=3):
         else:
             lines += ["> [^%s]: D%d definition" % (lab, i), ""]
     return "\n".join(lines) + "\n", dict(items=items, sort=sort, trans=trans)
+
+
+def _label_key(s):
+    """Ascending label order: numbers by value; labels that are digits but not decimal numbers (e.g. '\u00b2') after them."""
+    try:
+        return (0, int(s))
+    except ValueError:
+        return (1, s)
 
 
 def check(doc, warn, spec):
@@ -139,9 +147,9 @@ def check(doc, warn, spec):
             tail.insert(0, top.pop())
         if len(tail) != len(fns):
             return ("not-collected", "footnote_sort on: %d of %d footnotes at the end of the document" % (len(tail), len(fns)))
-        nums = [int(f[0].astext()) for f in tail]
+        nums = [_label_key(f[0].astext()) for f in tail]
         if nums != sorted(nums):
-            return ("collected-order", "footnotes at the end are ordered %r" % nums)
+            return ("collected-order", "footnotes at the end are ordered %r" % [n[1] for n in nums])
         ntrans = sum(1 for c_ in doc.findall(nodes.transition))
         others = [c_ for c_ in top if not isinstance(c_, nodes.transition)]
         exp_t = 1 if (trans and fns and others) else 0
@@ -199,8 +207,8 @@ def make(eng, k, labels, nkinds=3):
 def families(tier, seed):
     q = tier == "quick"
     F = []
-    for k, labels in ([(2, LABELS), (3, ["a", "b", "1"]), (4, ["a", "b"])] if q else [(3, LABELS), (4, ["a", "b", "2"]), (5, ["a", "b"]), (4, LABELS)]):
-        F.append(Family("arr/K%d-L%d" % (k, len(labels)), make, "all arrangements of %d items (reference / definition / definition in a block quote) over labels %r x footnote_sort x footnote_transition" % (k, labels),
+    for k, labels in ([(2, LABELS), (3, ["a", "b", "1"]), (3, ["a", "1", "\u00b2"]), (4, ["a", "b"])] if q else [(3, LABELS), (3, LABELS + ["\u00b2", "\u0663"]), (4, ["a", "b", "2"]), (4, ["a", "2", "\u00b2"]), (5, ["a", "b"]), (4, LABELS)]):
+        F.append(Family("arr/K%d-L%d%s" % (k, len(labels), "u" if any(ord(ch) > 127 for l in labels for ch in l) else ""), make, "all arrangements of %d items (reference / definition / definition in a block quote) over labels %r x footnote_sort x footnote_transition" % (k, labels),
                         args=dict(k=k, labels=labels), nontrivial=("linked" if k >= 3 else None), max_forks=400000, required=(k <= 4 and len(labels) <= 3 or k <= 3)))
     F.append(Family("arr/K5-L2-flat", make, "all arrangements of 5 items (reference / definition) over labels ['a', 'b'] x both settings (repeated references between other labels' first references)",
                     args=dict(k=5, labels=["a", "b"], nkinds=2), nontrivial="linked", max_forks=400000))
